@@ -24,7 +24,7 @@ type c18Scenario struct {
 	OnTick     bool       `json:"end_on_a_tick,omitempty"`
 	RefuseDial bool       `json:"reconnection_refused,omitempty"`
 	PeerDrops  bool       `json:"peer_drops_when_keepalive_fails,omitempty"` // the read side notices the loss while the keepalive is closing the transport
-	Stalled    bool       `json:"peer_stops_reading,omitempty"` // the server stops reading (a sender and then the keepalive block in write) and later closes the stream
+	Stalled    bool       `json:"peer_stops_reading,omitempty"`              // the server stops reading (a sender and then the keepalive block in write) and later closes the stream
 	EndAfterNs int64      `json:"end_after_ns,omitempty"`
 	Ticks      int        `json:"observe_ticks"`
 	LatencyNs  int64      `json:"latency_ns"`
